@@ -194,7 +194,8 @@ package flyt
 //@     effect k++
 //@   loop 1 invariant 0 <= k && k <= len(opts)
 //@   loop 1 invariant [C19] k == 0 ==> baseDefaults(alloc(BaseNode, 1))
-//@   ensures [C19] fresh(n) && k == len(opts) && n == alloc(BaseNode, 1)
+//@   ensures [C19] fresh(n)
+//@   ensures [C19] k == len(opts) && n == alloc(BaseNode, 1)
 //@   ensures [C19] len(opts) == 0 ==> baseDefaults(n)
 
 //@ func WithMaxRetries+call(retries, n) ()
@@ -857,7 +858,272 @@ package flyt
 //@   ensures [C18] (err == nil && act != "") || (err != nil && act == "")
 //@   ensures [C18] err == nil ==> act == norm(postAct)
 
+
+// ---------------------------------------------------------------------------
+// Worker pool (C08 C12): function-local facts; lifted to all schedules by lemma L2 (see /verif/lemmas)
+// ---------------------------------------------------------------------------
+
+//@ spec func poolSize(w int) int = w <= 0 ? 1 : w
+
+//@ func NewWorkerPool(workers) (p)
+//@   requires workers <= 1073741824
+//@   havoc alloc
+//@   ghost k int = 0
+//@   on go (*WorkerPool).worker(q)
+//@     requires [C08,C12] q == alloc(WorkerPool, 1)
+//@     effect k++
+//@   loop 1 invariant [C08,C12,C19] 0 <= k && k <= poolSize(workers) && spawned == k
+//@   loop 1 decreases [C08] poolSize(workers) - k
+//@   ensures [C08,C12,C19] fresh(p) && p.workers == poolSize(workers)
+//@   ensures [C08,C12,C19] spawned == poolSize(workers)
+//@   ensures [C08,C12] allocated(p.tasks) && allocated(p.done) && p.tasks != nil && p.done != nil && p.tasks != p.done && !closed(p.tasks) && !closed(p.done) && chancap(p.tasks) == 2 * poolSize(workers)
+
+//@ func (*WorkerPool).worker(p) ()
+//@   requires p != nil
+//@   havoc user
+//@   ghost pending bool = false; got func() = nil; ran int = 0
+//@   on select any()
+//@     requires [C12] !pending
+//@     effect pending = (lastSelIdx == 0 && lastRecvOk); got = lastRecv0
+//@     assume lastRecvOk ==> lastRecv0 != nil
+//@   on call recv field WorkerPool.tasks(fn)
+//@     requires [C08,C12] pending && fn == got
+//@     effect pending = false; ran++
+//@   loop 1 invariant [C08,C12] !pending && ran >= 0
+//@   ensures [C12] !pending && (lastSelIdx == 1 || (lastSelIdx == 0 && !lastRecvOk))
+//@   ensures [C08] spawned == 0
+
+//@ func (*WorkerPool).Submit(p, task) ()
+//@   requires p != nil && task != nil && !closed(p.tasks)
+//@   havoc alloc
+//@   ghost nAdd int = 0; nSend int = 0
+//@   on call (*sync.WaitGroup).Add(w, n)
+//@     requires [C12] w == p && n == 1 && nAdd == 0 && nSend == 0
+//@     effect nAdd++
+//@   on send field WorkerPool.tasks(v)
+//@     requires [C12] nAdd == 1 && nSend == 0
+//@     requires [C12] isClosure(v, "(*WorkerPool).Submit$1") && *binding(v, "(*WorkerPool).Submit$1", 1) == task && *binding(v, "(*WorkerPool).Submit$1", 0) == p
+//@     effect nSend++
+//@   ensures [C12] nAdd == 1 && nSend == 1
+//@   ensures [C08,C12] spawned == 0 && callbacks == old(callbacks)
+
+//@ func (*WorkerPool).Submit$1() ()
+//@   requires *p != nil && *task != nil
+//@   havoc user
+//@   ghost nCall int = 0; nDone int = 0
+//@   on call var task(fn)
+//@     requires [C12] nCall == 0 && nDone == 0 && fn == *task
+//@     effect nCall++
+//@   on call (*sync.WaitGroup).Done(w)
+//@     requires [C12] w == *p && nCall == 1 && nDone == 0 && inDefers
+//@     effect nDone++
+//@   ensures [C12] nCall == 1 && nDone == 1
+
+//@ func (*WorkerPool).Wait(p) ()
+//@   requires p != nil
+//@   ghost nWait int = 0
+//@   on call (*sync.WaitGroup).Wait(w)
+//@     requires [C12] w == p && nWait == 0
+//@     effect nWait++
+//@   ensures [C12] nWait == 1 && callbacks == old(callbacks)
+
+//@ func (*WorkerPool).Close(p) ()
+//@   requires p != nil && p.done != nil && p.tasks != nil && p.done != p.tasks && !closed(p.done) && !closed(p.tasks)
+//@   havoc chans
+//@   ensures [C12] closed(p.done) && closed(p.tasks)
+
+// One pooled task: settles exactly its own slot; executes its item at most once, and not at all once the
+// stop flag is set (read under the mutex) or the context is cancelled.
+//@ func runBatchConcurrent$1() ()
+//@   requires *node != nil && *ctx != nil && 0 <= *idx && *idx < len(*results)
+//@   guarded-cell shouldStop by mu
+//@   havoc user
+//@   assigns contents(*results), *shouldStop
+//@   ghost cnt int = 0; ov any = nil; oe error = nil; sawStop bool = false
+//@   on call runExecWithRetries(c, n, it) returns (v, e)
+//@     requires [C06,C07] cnt == 0 && c == *ctx && n == *node && it == *itm
+//@     requires [C09] !(old(*shouldStop) && *errorHandling == "stop")
+//@     requires [C11] !cancelled
+//@     effect cnt = 1; ov = v; oe = e
+//@   ensures [C06,C07] forall k int :: k != soff(*results) + *idx ==> raw(*results, k) == old(raw(*results, k))
+//@   ensures [C06,C07] cnt == 1 ==> (*results)[*idx] == slotOf(ov, oe)
+//@   ensures [C07] cnt == 0 ==> old(cancelled) || cancelled || (old(*shouldStop) && *errorHandling == "stop")
+//@   ensures [C09,C11] cnt == 0 ==> (*results)[*idx].err != nil
+//@   ensures [C09] cnt == 1 && oe != nil && *errorHandling == "stop" ==> *shouldStop
+//@   ensures [C09] (old(*shouldStop) ==> *shouldStop) && (*errorHandling != "stop" ==> *shouldStop == old(*shouldStop))
+//@   ensures [C13,C09] sections <= 2
+
+// Submission: one task per index, bound to its own index and item copy; Wait before returning; Close after Wait.
 //@ func runBatchConcurrent(ctx, node, items, results, concurrency, errorHandling) ()
-//@   trusted
+//@   requires node != nil && ctx != nil && len(results) == len(items) && sarr(results) != sarr(items) && concurrency <= 1073741824
 //@   havoc user
 //@   assigns contents(results)
+//@   ghost i int = 0; pool *WorkerPool = nil; waited bool = false; closedPool bool = false
+//@   on call NewWorkerPool(k) returns (p)
+//@     requires [C08] k == concurrency && pool == nil
+//@     effect pool = p
+//@   on call (*WorkerPool).Submit(p, task)
+//@     requires [C06,C07] p == pool && !waited && 0 <= i && i < len(items) && isClosure(task, "runBatchConcurrent$1")
+//@     requires [C06,C07] *binding(task, "runBatchConcurrent$1", 4) == i && *binding(task, "runBatchConcurrent$1", 7) == items[i] && *binding(task, "runBatchConcurrent$1", 3) == results
+//@     requires [C06,C07] binding(task, "runBatchConcurrent$1", 4) != binding(task, "runBatchConcurrent$1", 1) && fresh(binding(task, "runBatchConcurrent$1", 4)) && fresh(binding(task, "runBatchConcurrent$1", 7))
+//@     requires [C09] binding(task, "runBatchConcurrent$1", 0) == alloc(sync.Mutex, 1) && binding(task, "runBatchConcurrent$1", 1) == alloc(bool, 1) && *binding(task, "runBatchConcurrent$1", 2) == errorHandling
+//@     requires [C11] *binding(task, "runBatchConcurrent$1", 5) == ctx && *binding(task, "runBatchConcurrent$1", 6) == node
+//@     effect i = i
+//@   on call (*WorkerPool).Wait(p)
+//@     requires [C06,C12] p == pool && i == len(items) && !waited
+//@     effect waited = true
+//@   on call (*WorkerPool).Close(p)
+//@     requires [C12] p == pool && waited && !closedPool && inDefers
+//@     effect closedPool = true
+//@   loop 1 step i++
+//@   loop 1 invariant 0 <= i && i <= len(items) && pool != nil && !waited && !closedPool
+//@   loop 1 invariant allocated(pool)
+//@   loop 1 invariant !closed(pool.tasks) && !closed(pool.done)
+//@   loop 1 invariant pool.tasks != pool.done && pool.tasks != nil && pool.done != nil && allocated(pool.tasks) && allocated(pool.done)
+//@   loop 1 decreases [C06] len(items) - i
+//@   ensures [C06,C12] waited && closedPool && i == len(items)
+//@   ensures-by L3 [C06] forall j int :: 0 <= j && j < len(items) ==> items[j] == old(items[j])
+
+// ---------------------------------------------------------------------------
+// Batch node wrappers and constructors (C06 C17 C19)
+// ---------------------------------------------------------------------------
+
+// an option of unknown provenance may set any field of the node it is applied to (and nothing else of the framework)
+//@ abstract CustomNodeOption.apply(o, n) ()
+//@   havoc user
+//@   assigns n.*
+
+//@ func (*BatchNode).Prep(n, ctx, shared) (v, err)
+//@   requires n != nil && n.CustomNode != nil && n.CustomNode.BaseNode != nil
+//@   havoc user
+//@   ghost calls int = 0; ur []Result = slice(0, 0, 0, 0); ue error = nil; dcalls int = 0; dv any = nil; de error = nil
+//@   on call field BatchNode.batchPrepFunc(fn, c, s) returns (r, e)
+//@     requires [C06] calls == 0 && dcalls == 0 && fn == n.batchPrepFunc && c == ctx && s == shared
+//@     effect calls = 1; ur = r; ue = e
+//@   on call (*CustomNode).Prep(cn, c, s) returns (rv, re)
+//@     requires [C06] calls == 0 && dcalls == 0 && cn == n.CustomNode && c == ctx && s == shared
+//@     effect dcalls = 1; dv = rv; de = re
+//@   ensures [C06] old(n.batchPrepFunc) != nil ==> calls == 1 && dcalls == 0 && v == box(ur, []Result) && err == ue
+//@   ensures [C06] old(n.batchPrepFunc) == nil ==> calls == 0 && dcalls == 1 && v == dv && err == de
+
+//@ func (*BatchNode).Post(n, ctx, shared, prepResult, execResult) (a, err)
+//@   requires n != nil
+//@   requires n.batchPostFunc != nil ==> isType(prepResult, []Result) && isType(execResult, []Result)
+//@   havoc user
+//@   ghost calls int = 0; ua Action = ""; ue error = nil
+//@   on call field BatchNode.batchPostFunc(fn, c, s, p, r) returns (act, e)
+//@     requires [C06] calls == 0 && fn == n.batchPostFunc && c == ctx && s == shared && p == prepResult.([]Result) && r == execResult.([]Result)
+//@     effect calls = 1; ua = act; ue = e
+//@   ensures [C06] old(n.batchPostFunc) != nil ==> calls == 1 && a == ua && err == ue
+//@   ensures [C06,C18] old(n.batchPostFunc) == nil ==> calls == 0 && a == DefaultAction && err == nil
+
+//@ func (*BatchNodeBuilder).Prep(b, ctx, shared) (v, err)
+//@   requires b != nil && b.BatchNode != nil && b.BatchNode.CustomNode != nil && b.BatchNode.CustomNode.BaseNode != nil
+//@   havoc user
+//@   ghost calls int = 0; dv any = nil; de error = nil
+//@   on call (*BatchNode).Prep(n, c, s) returns (rv, re)
+//@     requires [C06] calls == 0 && n == b.BatchNode && c == ctx && s == shared
+//@     effect calls = 1; dv = rv; de = re
+//@   ensures [C06] calls == 1 && v == dv && err == de
+//@ func (*BatchNodeBuilder).Exec(b, ctx, p) (v, err)
+//@   requires b != nil && b.BatchNode != nil && b.BatchNode.CustomNode != nil && b.BatchNode.CustomNode.BaseNode != nil
+//@   havoc user
+//@   ghost calls int = 0; dv any = nil; de error = nil
+//@   on call (*CustomNode).Exec(n, c, pr) returns (rv, re)
+//@     requires [C06,C17] calls == 0 && n == b.BatchNode.CustomNode && c == ctx && pr == p
+//@     effect calls = 1; dv = rv; de = re
+//@   ensures [C06,C17] calls == 1 && v == dv && err == de
+//@ func (*BatchNodeBuilder).Post(b, ctx, shared, p, r) (a, err)
+//@   requires b != nil && b.BatchNode != nil
+//@   requires b.BatchNode.batchPostFunc != nil ==> isType(p, []Result) && isType(r, []Result)
+//@   havoc user
+//@   ghost calls int = 0; da Action = ""; de error = nil
+//@   on call (*BatchNode).Post(n, c, s, pr, er) returns (ra, re)
+//@     requires [C06] calls == 0 && n == b.BatchNode && c == ctx && s == shared && pr == p && er == r
+//@     effect calls = 1; da = ra; de = re
+//@   ensures [C06] calls == 1 && a == da && err == de
+
+//@ func (*BatchNodeBuilder).WithPrepFunc(b, fn) (r)
+//@   requires b != nil && b.BatchNode != nil
+//@   assigns [C19] b.BatchNode.batchPrepFunc
+//@   ensures [C19] r == b && b.BatchNode.batchPrepFunc == fn
+//@ func (*BatchNodeBuilder).WithPostFunc(b, fn) (r)
+//@   requires b != nil && b.BatchNode != nil
+//@   assigns [C19] b.BatchNode.batchPostFunc
+//@   ensures [C19] r == b && b.BatchNode.batchPostFunc == fn
+//@ func (*BatchNodeBuilder).WithExecFunc(b, fn) (r)
+//@   requires b != nil && b.BatchNode != nil && b.BatchNode.CustomNode != nil
+//@   assigns [C19] b.BatchNode.CustomNode.execFunc
+//@   ensures [C19] r == b && b.BatchNode.CustomNode.execFunc == fn
+//@ func (*BatchNodeBuilder).WithExecFuncAny(b, fn) (r)
+//@   requires b != nil && b.BatchNode != nil && b.BatchNode.CustomNode != nil
+//@   assigns [C19] b.BatchNode.CustomNode.execFunc
+//@   havoc alloc
+//@   ensures [C17,C19] r == b && isClosure(b.BatchNode.CustomNode.execFunc, "(*BatchNodeBuilder).WithExecFuncAny$1") && *binding(b.BatchNode.CustomNode.execFunc, "(*BatchNodeBuilder).WithExecFuncAny$1", 0) == fn
+
+// Constructors: a fresh node with default base configuration; base options are applied first, in the order
+// they were collected, each exactly once to the new node's BaseNode; then the custom options, likewise.
+//@ func NewNode(opts) (r)
+//@   requires forall j int :: 0 <= j && j < len(opts) && isType(opts[j], func(*BaseNode)) ==> opts[j].(func(*BaseNode)) != nil
+//@   requires forall j int :: 0 <= j && j < len(opts) && isType(opts[j], NodeOption) ==> opts[j].(NodeOption) != nil
+//@   havoc user
+//@   ghost baseAcc []NodeOption = slice(0, 0, 0, 0); custAcc []CustomNodeOption = slice(0, 0, 0, 0); kb int = 0; kc int = 0; i int = 0
+//@   on call NewBaseNode(o) returns (bn)
+//@     requires [C19] len(o) == 0
+//@   on call builtin.append<[]NodeOption>(s0, e) returns (acc)
+//@     effect baseAcc = acc
+//@   on call builtin.append<[]CustomNodeOption>(s0, e) returns (acc)
+//@     effect custAcc = acc
+//@   on call elem carried<[]NodeOption>(fn, b)
+//@     requires [C19] fn == baseAcc[kb] && b == alloc(CustomNode, 1).BaseNode && kc == 0
+//@     effect kb++
+//@   on call CustomNodeOption.apply(o, n)
+//@     requires [C19] o == custAcc[kc] && n == alloc(CustomNode, 1) && kb == len(baseAcc)
+//@     effect kc++
+//@   loop 1 step i++
+//@   loop 1 invariant [C19] 0 <= i && i <= len(opts) && kb == 0 && kc == 0 && len(baseAcc) <= i && len(custAcc) <= i
+//@   loop 1 invariant [C19] forall j int :: 0 <= j && j < len(baseAcc) ==> baseAcc[j] != nil
+//@   loop 1 invariant [C19] forall j int :: 0 <= j && j < len(custAcc) ==> custAcc[j] != nil
+//@   loop 1 invariant [C19] alloc(CustomNode, 1).BaseNode != nil
+//@   loop 1 invariant [C19] fresh(alloc(CustomNode, 1).BaseNode)
+//@   loop 1 invariant [C19] baseDefaults(alloc(CustomNode, 1).BaseNode)
+//@   loop 1 invariant framed([]NodeOption) && framed([]CustomNodeOption)
+//@   loop 1 invariant (sarr(baseAcc) == 0 || fresh(sarr(baseAcc))) && (sarr(custAcc) == 0 || fresh(sarr(custAcc)))
+//@   loop 2 invariant [C19] 0 <= kb && kb <= len(baseAcc) && kc == 0 && alloc(CustomNode, 1).BaseNode != nil
+//@   loop 2 invariant [C19] forall j int :: 0 <= j && j < len(baseAcc) ==> baseAcc[j] != nil
+//@   loop 2 invariant [C19] forall j int :: 0 <= j && j < len(custAcc) ==> custAcc[j] != nil
+//@   loop 2 invariant [C19] kb == 0 ==> baseDefaults(alloc(CustomNode, 1).BaseNode)
+//@   loop 2 invariant [C19] fresh(alloc(CustomNode, 1).BaseNode)
+//@   loop 3 invariant [C19] 0 <= kc && kc <= len(custAcc) && kb == len(baseAcc)
+//@   loop 3 invariant [C19] forall j int :: 0 <= j && j < len(custAcc) ==> custAcc[j] != nil
+//@   loop 3 invariant [C19] framed(BaseNode)
+//@   ensures [C19] fresh(r) && r.CustomNode == alloc(CustomNode, 1) && fresh(r.CustomNode) && kb == len(baseAcc) && kc == len(custAcc)
+//@   ensures [C19] len(opts) == 0 ==> baseDefaults(r.CustomNode.BaseNode) && r.CustomNode.prepFunc == nil && r.CustomNode.execFunc == nil && r.CustomNode.postFunc == nil && r.CustomNode.execFallbackFunc == nil
+
+//@ func NewBatchNode(opts) (r)
+//@   requires forall j int :: 0 <= j && j < len(opts) && isType(opts[j], func(*BaseNode)) ==> opts[j].(func(*BaseNode)) != nil
+//@   requires forall j int :: 0 <= j && j < len(opts) && isType(opts[j], NodeOption) ==> opts[j].(NodeOption) != nil
+//@   havoc user
+//@   ghost baseAcc []NodeOption = slice(0, 0, 0, 0); kb int = 0; i int = 0
+//@   on call NewBaseNode(o) returns (bn)
+//@     requires [C19] len(o) == 0
+//@   on call builtin.append<[]NodeOption>(s0, e) returns (acc)
+//@     effect baseAcc = acc
+//@   on call elem carried<[]NodeOption>(fn, b)
+//@     requires [C19] fn == baseAcc[kb] && b == alloc(CustomNode, 1).BaseNode
+//@     effect kb++
+//@   loop 1 step i++
+//@   loop 1 invariant [C19] 0 <= i && i <= len(opts) && kb == 0 && len(baseAcc) <= i
+//@   loop 1 invariant [C19] forall j int :: 0 <= j && j < len(baseAcc) ==> baseAcc[j] != nil
+//@   loop 1 invariant [C19] alloc(CustomNode, 1).BaseNode != nil
+//@   loop 1 invariant [C19] fresh(alloc(CustomNode, 1).BaseNode)
+//@   loop 1 invariant [C19] baseDefaults(alloc(CustomNode, 1).BaseNode)
+//@   loop 1 invariant framed([]NodeOption)
+//@   loop 1 invariant sarr(baseAcc) == 0 || fresh(sarr(baseAcc))
+//@   loop 2 invariant [C19] 0 <= kb && kb <= len(baseAcc) && alloc(CustomNode, 1).BaseNode != nil
+//@   loop 2 invariant [C19] forall j int :: 0 <= j && j < len(baseAcc) ==> baseAcc[j] != nil
+//@   loop 2 invariant [C19] kb == 0 ==> baseDefaults(alloc(CustomNode, 1).BaseNode)
+//@   loop 2 invariant [C19] fresh(alloc(CustomNode, 1).BaseNode)
+//@   ensures [C19] fresh(r) && fresh(r.BatchNode) && r.BatchNode.CustomNode == alloc(CustomNode, 1) && fresh(r.BatchNode.CustomNode) && kb == len(baseAcc)
+//@   ensures [C19] r.BatchNode.batchPrepFunc == nil && r.BatchNode.batchPostFunc == nil && r.BatchNode.CustomNode.execFunc == nil
+//@   ensures [C19] len(opts) == 0 ==> baseDefaults(r.BatchNode.CustomNode.BaseNode)
